@@ -184,6 +184,33 @@ lemma("L-lpsi-agree", _lpsi_agree_build,
       "two slot arrays that agree on [0, n) have the same most recent matching pulse slot (LPSI is characterised as the last matching index)")
 
 
+def lpsi_extend_concl(a, b):
+    """b agrees with a on [0, n) and has no matching slot in [n, m): same most recent matching slot"""
+    k = z3.Int("k!le")
+    return Q([I, I, B], lambda n, m, ign: (
+        z3.And(_agree(a, b, n), n <= m, lpsi_def(a, n, ign), lpsi_def(b, m, ign), 0 <= LPSI(a, n, ign), LPSI(a, n, ign) < n, lps_match(a, LPSI(a, n, ign), ign),
+               z3.ForAll([k], z3.Implies(z3.And(n <= k, k < m), z3.Not(lps_match(b, k, ign))), patterns=[z3.Select(b, k)])),
+        LPSI(b, m, ign) == LPSI(a, n, ign)), pats=lambda n, m, ign: [(LPSI(a, n, ign), LPSI(b, m, ign))])
+
+
+def _lpsi_extend_build():
+    a, b = z3.Const("a!LE", SlotArr), z3.Const("b!LE", SlotArr)
+    return [], lpsi_extend_concl(a, b), lambda n, m, ign: []
+
+
+lemma("L-lpsi-extend", _lpsi_extend_build,
+      "appending slots that do not match (delays, detuned delays) does not change the most recent matching pulse slot")
+
+
+def dem_lemmas(c):
+    a0 = SC.cs_arr(c.old, CS(c))
+    n0 = cs_len(c.old, CS(c))
+    b = z3.Const("b!deml", SlotArr)
+    m, ign = z3.Int("m!deml"), z3.Bool("ign!deml")
+    prem, concl = lpsi_extend_concl(a0, b).body(n0, m, ign)
+    return [("L-lpsi-extend", z3.ForAll([b, m, ign], z3.Implies(prem, concl), patterns=[z3.MultiPattern(LPSI(b, m, ign), LPSI(a0, n0, ign))]))]
+
+
 def mes_lemmas(c):
     """instances of L-lpsi-agree between the entry array of the channel and any later array of it"""
     a0 = SC.cs_arr(c.old, CS(c))
@@ -191,3 +218,113 @@ def mes_lemmas(c):
     n, ign = z3.Int("n!mesl"), z3.Bool("ign!mesl")
     prem, concl = lpsi_agree_concl(b, a0).body(n, ign)
     return [("L-lpsi-agree", z3.ForAll([b, n, ign], z3.Implies(prem, concl), patterns=[z3.MultiPattern(LPSI(b, n, ign), LPSI(a0, n, ign))]))]
+
+
+# --------------------------------------------------------------------------
+# enable_eom_mode (C15): the drift correction covers exactly the start buffer (the only time the off-detuning is applied before the block starts)
+# --------------------------------------------------------------------------
+def eem_requires(c):
+    h, seq = c.old, T(c.self)
+    cs = CS(c)
+    return seq_wf(c) + [
+        ("declared", sch_has(h, SCH(c), T(c.channel))),
+        ("has-target", cs_len(h, cs) >= 1),
+    ] + SC.INV(h, cs) + SC.EOMINV(h, cs) + [("within-max-sequence-duration", SC.MAXD(h, SCH(c), cs))] + SC.fad_requires(SC_ctx(c))[3:]
+
+
+def eem_ensures(c):
+    h0, h1, seq = c.old, c.new, T(c.self)
+    cs = CS(c)
+    ch = cs_chan(cs)
+    basis = fget("Channel", "basis", ch)
+    n0, n1 = cs_len(h0, cs), cs_len(h1, cs)
+    e0 = SC.eb_len(h0, cs)
+    new_blk = SC.eb_at(h1, cs, e0)
+    last0, last1 = cs_at(h0, cs, n0 - 1), cs_at(h1, cs, n1 - 1)
+    no_buffer = s_tf(last0) == 0
+    buffer_len = z3.If(no_buffer, 0, s_tf(last1) - s_ti(last1))
+    drift = DRIFT(-eb_det_off(new_blk), buffer_len)
+    tg = s_targets(last1)
+    tr0 = lambda qq: q_phase(h0, qref(h0, seq, basis, qq))
+    q = z3.Const("q!eem", Qid)
+    return [
+        ("was-not-in-eom-mode-and-has-an-eom", z3.And(z3.Not(in_eom(h0, cs)), z3.Not(fnone("Channel", "eom_config", ch)))),
+        ("block-opened-with-the-processed-setpoint", z3.And(SC.eb_len(h1, cs) == e0 + 1, SC.eb_rabi(new_blk) == T(c.amp_on), SC.eb_don(new_blk) == T(c.detuning_on),
+                                                            eb_det_off(new_blk) == CALC_DET_OFF(fget("Channel", "eom_config", ch), T(c.amp_on), T(c.detuning_on), T(c.optimal_detuning_off)))),
+        ("in-eom-mode-afterwards", in_eom(h1, cs)),
+        ("drift-window-is-the-buffer", z3.Implies(T(c.correct_phase_drift), z3.ForAll([q], z3.Implies(z3.Select(tg, q),
+            last_phase(h1, tr0(q)) == fmt(last_phase(h0, tr0(q)) + (-drift))), patterns=[qref(h0, seq, basis, q)]))),
+        ("no-correction-unless-asked", z3.Implies(z3.Not(T(c.correct_phase_drift)), z3.ForAll([q], z3.Implies(z3.Select(tg, q),
+            last_phase(h1, tr0(q)) == last_phase(h0, tr0(q))), patterns=[qref(h0, seq, basis, q)]))),
+        ("within-max-sequence-duration", SC.MAXD(h1, SCH(c), cs)),
+    ] + [(f"INV.{nm}", cl) for nm, cl in SC.INV(h1, cs)] + [(f"BRINV.{nm}", cl) for nm, cl in BRINV(h1, seq)]
+
+
+contract(SQ, "Sequence.enable_eom_mode", props=("C15", "C13"),
+         params={"self": ("ref", "Sequence"), "channel": "str", "amp_on": "real", "detuning_on": "real", "optimal_detuning_off": "real", "correct_phase_drift": "bool"},
+         requires=eem_requires,
+         ensures=eem_ensures,
+         spec_defs=lambda c: [SC.lpsi_def(SC.cs_arr(c.old, CS(c)), cs_len(c.old, CS(c)), z3.BoolVal(False))],
+         raises={"ValueError": ("only-if", lambda c: z3.BoolVal(True)), "RuntimeError": ("only-if", lambda c: z3.BoolVal(True)), "TypeError": ("only-if", lambda c: z3.BoolVal(True))},
+         modifies={SC.SLOTS: lambda c: [CS(c)], SC.EBLOCKS: lambda c: [CS(c)], "$alloc": None,
+                   BR_TIMES: mes_touched_trackers, BR_PHASES: mes_touched_trackers, "Sequence._calls": lambda c: [T(c.self)], "Sequence._to_build_calls": lambda c: [T(c.self)]},
+         exc_safe=False,
+         slices={"drift-window-is-the-buffer": ("targets-shifted-additively", "built-case", "schedule-is-always", "frame", "blocks-kept", "earlier-blocks-kept", "lemma",
+                                                "INV.monotone", "INV.contiguous", "INV.boundaries-nonneg", "INV.first-is-initial-target", "INV.len>=0")},
+         )
+
+
+# --------------------------------------------------------------------------
+# disable_eom_mode (C15): closes the block at the channel's end; the correction covers the time since the last real pulse (or the block's start)
+# --------------------------------------------------------------------------
+def dem_requires(c):
+    h, seq = c.old, T(c.self)
+    cs = CS(c)
+    return seq_wf(c) + [
+        ("declared", sch_has(h, SCH(c), T(c.channel))),
+        ("has-target", cs_len(h, cs) >= 1),
+    ] + SC.INV(h, cs) + SC.EOMINV(h, cs) + [("within-max-sequence-duration", SC.MAXD(h, SCH(c), cs))]
+
+
+def dem_ensures(c):
+    h0, h1, seq = c.old, c.new, T(c.self)
+    cs = CS(c)
+    ch = cs_chan(cs)
+    basis = fget("Channel", "basis", ch)
+    n0, n1 = cs_len(h0, cs), cs_len(h1, cs)
+    e0 = SC.eb_len(h0, cs)
+    blk = SC.eb_at(h0, cs, e0 - 1)
+    last0, last1 = cs_at(h0, cs, n0 - 1), cs_at(h1, cs, n1 - 1)
+    arr0 = SC.cs_arr(h0, cs)
+    L = SC.LPSI(arr0, n0, z3.BoolVal(True))
+    last_pulse_tf = z3.If(HAS_REAL_PULSE(arr0, n0), s_tf(z3.Select(arr0, L)), 0)
+    start = z3.If(eb_ti(blk) >= last_pulse_tf, eb_ti(blk), last_pulse_tf)
+    t_close = s_tf(last0)
+    drift = DRIFT(-eb_det_off(blk), t_close - start)
+    tg = s_targets(last1)
+    tr0 = lambda qq: q_phase(h0, qref(h0, seq, basis, qq))
+    q = z3.Const("q!dem", Qid)
+    return [
+        ("was-in-eom-mode", in_eom(h0, cs)),
+        ("block-closed-at-the-channel-end", z3.And(SC.eb_len(h1, cs) == e0, z3.Not(SC.eb_tf_none(h1, blk)), SC.eb_tf(h1, blk) == t_close, z3.Not(in_eom(h1, cs)))),
+        ("drift-window-ends-with-the-block", z3.Implies(T(c.correct_phase_drift), z3.ForAll([q], z3.Implies(z3.Select(tg, q),
+            last_phase(h1, tr0(q)) == fmt(last_phase(h0, tr0(q)) + (-drift))), patterns=[qref(h0, seq, basis, q)]))),
+        ("no-correction-unless-asked", z3.Implies(z3.Not(T(c.correct_phase_drift)), z3.ForAll([q], z3.Implies(z3.Select(tg, q),
+            last_phase(h1, tr0(q)) == last_phase(h0, tr0(q))), patterns=[qref(h0, seq, basis, q)]))),
+        ("within-max-sequence-duration", SC.MAXD(h1, SCH(c), cs)),
+    ] + [(f"INV.{nm}", cl) for nm, cl in SC.INV(h1, cs)] + [(f"BRINV.{nm}", cl) for nm, cl in BRINV(h1, seq)]
+
+
+contract(SQ, "Sequence.disable_eom_mode", props=("C15", "C13"), lemmas=lambda c: mes_lemmas(c) + dem_lemmas(c),
+         params={"self": ("ref", "Sequence"), "channel": "str", "correct_phase_drift": "bool"},
+         requires=dem_requires,
+         ensures=dem_ensures,
+         spec_defs=lambda c: [SC.lpsi_def(SC.cs_arr(c.old, CS(c)), cs_len(c.old, CS(c)), z3.BoolVal(True)), SC.lpsi_def(SC.cs_arr(c.old, CS(c)), cs_len(c.old, CS(c)), z3.BoolVal(False)),
+                              has_real_pulse_def(SC.cs_arr(c.old, CS(c)), cs_len(c.old, CS(c)))],
+         raises={"ValueError": ("only-if", lambda c: z3.BoolVal(True)), "RuntimeError": ("only-if", lambda c: z3.BoolVal(True))},
+         modifies={SC.SLOTS: lambda c: [CS(c)], "_EOMSettings.tf": None, "$alloc": None,
+                   BR_TIMES: mes_touched_trackers, BR_PHASES: mes_touched_trackers, "Sequence._calls": lambda c: [T(c.self)], "Sequence._to_build_calls": lambda c: [T(c.self)]},
+         exc_safe=False,
+         slices={"drift-window-ends-with-the-block": ("targets-shifted-additively", "built-case", "schedule-is-always", "frame", "blocks-kept", "lemma", "L-lpsi-agree", "L-lpsi-extend", "appended-slots-are-no-real-pulses",
+                                                      "INV.monotone", "INV.contiguous", "INV.boundaries-nonneg", "INV.first-is-initial-target", "INV.len>=0")},
+         )
